@@ -35,3 +35,12 @@ int main(int argc, char *argv[]) {
     std::cout << w << std::endl;
     return 0;
 }
+
+// R20e: work handed to a thread that the TBB limit does not govern
+#include <future>
+namespace r20e_pos {
+inline int overlapped_sum(int a, int b) {
+    std::future<int> f = std::async(std::launch::async, [a]() { return a * 2; });
+    return f.get() + b;
+}
+}
